@@ -150,6 +150,10 @@ func (p *prover) norm(v ssa.Value) term {
 // canon maps values denoting the same slice to one representative.
 func (p *prover) canon(v ssa.Value) ssa.Value {
 	for i := 0; i < 10; i++ {
+		if r, ok := p.subst[v]; ok {
+			v = r
+			continue
+		}
 		switch x := v.(type) {
 		case *ssa.ChangeType:
 			v = x.X
@@ -385,9 +389,27 @@ func (p *prover) valFacts(v ssa.Value) {
 				p.g.le("0", k, 0)
 				p.g.le(k, "0", n)
 			}
+		case token.SUB:
+			// v = a - b with both symbolic: v <= a when b >= 0, v >= 0 when b <= a
+			if _, isC := ConstInt(x.Y); !isC {
+				a, b := p.norm(x.X), p.norm(x.Y)
+				if a.ok && b.ok {
+					if p.g.prove("0", b.sym, b.off) {
+						p.g.le(k, a.sym, a.off)
+					}
+					if p.g.prove(b.sym, a.sym, a.off-b.off) {
+						p.g.le("0", k, 0)
+					}
+				}
+			}
 		}
 	case *ssa.Extract:
-		// range over string/map handled elsewhere
+		// the advance of a bufio.SplitFunc-style scanner: 0 <= advance <= len(data)
+		if call, ok := x.Tuple.(*ssa.Call); ok && x.Index == 0 && advanceFuncs[CalleeName(call)] && len(call.Call.Args) > 0 {
+			p.g.le("0", k, 0)
+			p.lenFacts(call.Call.Args[0])
+			p.g.le(k, lenKey(p.canon(call.Call.Args[0])), 0)
+		}
 	}
 }
 
@@ -468,7 +490,18 @@ func (p *prover) lenFacts(v ssa.Value) {
 		switch name {
 		case "builtin.append":
 			p.lenFacts(x.Call.Args[0])
-			ge(term{lenKey(p.canon(x.Call.Args[0])), 0, true})
+			base := term{lenKey(p.canon(x.Call.Args[0])), 0, true}
+			ge(base)
+			// append(a, e1, …, en): the variadic part is an n-element array sliced whole
+			if len(x.Call.Args) == 2 {
+				if sl, ok := x.Call.Args[1].(*ssa.Slice); ok && sl.Low == nil && sl.High == nil {
+					if pt, ok := sl.X.Type().Underlying().(*types.Pointer); ok {
+						if arr, ok := pt.Elem().Underlying().(*types.Array); ok {
+							eq(term{base.sym, arr.Len(), true})
+						}
+					}
+				}
+			}
 		case "strings.Split", "bytes.Split":
 			if s, ok := ConstString(x.Call.Args[1]); ok && s != "" {
 				ge(term{"0", 1, true})
@@ -486,6 +519,12 @@ func (p *prover) lenFacts(v ssa.Value) {
 				p.g.le(k, t.sym, t.off)
 			}
 		case "strings.Repeat":
+		case "strings.TrimLeftFunc", "strings.TrimRightFunc", "strings.TrimFunc", "strings.TrimLeft", "strings.TrimRight", "strings.Trim",
+			"strings.TrimSpace", "strings.TrimPrefix", "strings.TrimSuffix", "bytes.TrimLeftFunc", "bytes.TrimRightFunc", "bytes.TrimFunc",
+			"bytes.TrimLeft", "bytes.TrimRight", "bytes.Trim", "bytes.TrimSpace", "bytes.TrimPrefix", "bytes.TrimSuffix":
+			// a sub-slice of the first argument
+			p.lenFacts(x.Call.Args[0])
+			p.g.le(k, lenKey(p.canon(x.Call.Args[0])), 0)
 		}
 	case *ssa.Convert:
 		// []byte(s) / string(b): same length
@@ -1054,11 +1093,19 @@ func splitOnPhi(c *Ctx, loads []heapLoad, fn *ssa.Function, in ssa.Instruction) 
 	var cands []ssa.Value
 	switch x := in.(type) {
 	case *ssa.Slice:
-		cands = []ssa.Value{x.Low, x.High}
+		cands = []ssa.Value{x.Low, x.High, x.X}
 	case *ssa.IndexAddr:
-		cands = []ssa.Value{x.Index}
+		cands = []ssa.Value{x.Index, x.X}
 	case *ssa.Index:
-		cands = []ssa.Value{x.Index}
+		cands = []ssa.Value{x.Index, x.X}
+	}
+	// len(<join>) - k as an index: split on the join as well
+	for _, cv := range append([]ssa.Value{}, cands...) {
+		if bo, ok := cv.(*ssa.BinOp); ok {
+			if arg, isLen := isLenCall(bo.X); isLen {
+				cands = append(cands, arg)
+			}
+		}
 	}
 	for _, cv := range cands {
 		ph, ok := cv.(*ssa.Phi)
@@ -1067,8 +1114,15 @@ func splitOnPhi(c *Ctx, loads []heapLoad, fn *ssa.Function, in ssa.Instruction) 
 		}
 		all := true
 		for i, e := range ph.Edges {
-			pr := newProver(c, loads, fn, ph.Block().Preds[i])
+			pred := ph.Block().Preds[i]
+			pr := newProver(c, loads, fn, pred)
 			pr.subst = map[ssa.Value]ssa.Value{ph: e}
+			// the condition of the edge itself
+			if iff, isIf := pred.Instrs[len(pred.Instrs)-1].(*ssa.If); isIf && pred.Succs[0] != pred.Succs[1] {
+				for pass := 0; pass < 2; pass++ {
+					pr.assume(iff.Cond, pred.Succs[0] == ph.Block())
+				}
+			}
 			ok := false
 			switch x := in.(type) {
 			case *ssa.Slice:
@@ -1088,6 +1142,197 @@ func splitOnPhi(c *Ctx, loads []heapLoad, fn *ssa.Function, in ssa.Instruction) 
 		}
 	}
 	return false
+}
+
+type edgeCond struct {
+	cond  ssa.Value
+	truth bool
+}
+
+// cellPath: one backward path from a block to the nearest access of a memory-resident local variable: the value
+// the variable holds on that path, the block where that value was stored/loaded, and the branch conditions taken.
+type cellPath struct {
+	val   ssa.Value
+	at    *ssa.BasicBlock
+	conds []edgeCond
+}
+
+func writesCell(i ssa.Instruction, al *ssa.Alloc) bool {
+	switch w := i.(type) {
+	case *ssa.Store:
+		if w.Addr == ssa.Value(al) {
+			return true
+		}
+		switch w.Addr.(type) {
+		case *ssa.Alloc:
+			return false
+		case *ssa.FieldAddr, *ssa.IndexAddr:
+			return false // a component of another object (the cell itself is a whole variable)
+		}
+		return true // through a pointer that may be &cell
+	case ssa.CallInstruction:
+		for _, a := range w.Common().Args {
+			if types.Identical(a.Type(), al.Type()) {
+				return true
+			}
+		}
+	}
+	return false
+}
+
+// cellPathsTo: cv is a load of a local cell at the top of block u (nothing writes the cell in u before it). Returns
+// the loads of the cell at the top of u and every backward path to the nearest earlier access.
+func cellPathsTo(cv ssa.Value, u *ssa.BasicBlock) (top []ssa.Value, paths []cellPath, ok bool) {
+	ld, isLd := cv.(*ssa.UnOp)
+	if !isLd || ld.Op != token.MUL || len(u.Preds) == 0 {
+		return nil, nil, false
+	}
+	al, isAl := ld.X.(*ssa.Alloc)
+	if !isAl {
+		return nil, nil, false
+	}
+	for _, i := range u.Instrs {
+		if writesCell(i, al) {
+			break
+		}
+		if l2, ok := i.(*ssa.UnOp); ok && l2.Op == token.MUL && l2.X == ssa.Value(al) {
+			top = append(top, l2)
+		}
+	}
+	isTop := false
+	for _, t := range top {
+		if t == cv {
+			isTop = true
+		}
+	}
+	if !isTop {
+		return nil, nil, false
+	}
+	okEnum := true
+	var back func(b, succ *ssa.BasicBlock, conds []edgeCond, depth int, onPath map[*ssa.BasicBlock]bool)
+	back = func(b, succ *ssa.BasicBlock, conds []edgeCond, depth int, onPath map[*ssa.BasicBlock]bool) {
+		if !okEnum {
+			return
+		}
+		if depth > 8 || onPath[b] || len(paths) > 16 {
+			okEnum = false
+			return
+		}
+		if iff, isIf := b.Instrs[len(b.Instrs)-1].(*ssa.If); isIf && b.Succs[0] != b.Succs[1] {
+			conds = append(append([]edgeCond{}, conds...), edgeCond{iff.Cond, b.Succs[0] == succ})
+		}
+		for k := len(b.Instrs) - 1; k >= 0; k-- {
+			i := b.Instrs[k]
+			if st, ok := i.(*ssa.Store); ok && st.Addr == ssa.Value(al) {
+				paths = append(paths, cellPath{st.Val, b, conds})
+				return
+			}
+			if l2, ok := i.(*ssa.UnOp); ok && l2.Op == token.MUL && l2.X == ssa.Value(al) {
+				paths = append(paths, cellPath{l2, b, conds})
+				return
+			}
+			if writesCell(i, al) {
+				okEnum = false
+				return
+			}
+		}
+		if len(b.Preds) == 0 {
+			okEnum = false // the zero value at entry: not handled
+			return
+		}
+		onPath[b] = true
+		for _, p2 := range b.Preds {
+			back(p2, b, conds, depth+1, onPath)
+		}
+		delete(onPath, b)
+	}
+	for _, pred := range u.Preds {
+		back(pred, u, nil, 0, map[*ssa.BasicBlock]bool{u: true})
+	}
+	return top, paths, okEnum && len(paths) > 0
+}
+
+// proverOnPath: a prover positioned where the path found the cell's value, with the loads at the top of the block
+// replaced by that value and the path's branch conditions assumed.
+func proverOnPath(c *Ctx, loads []heapLoad, fn *ssa.Function, top []ssa.Value, cp cellPath) *prover {
+	pr := newProver(c, loads, fn, cp.at)
+	pr.subst = map[ssa.Value]ssa.Value{}
+	for _, t := range top {
+		pr.subst[t] = cp.val
+	}
+	for pass := 0; pass < 2; pass++ {
+		for _, ec := range cp.conds {
+			pr.assume(ec.cond, ec.truth)
+		}
+	}
+	return pr
+}
+
+// caseProvers: provers that together cover every way value v can have been produced at the top of block u — one per
+// incoming edge when v is a join in u, one per backward path when v is a load of a memory-resident local.
+func caseProvers(c *Ctx, loads []heapLoad, fn *ssa.Function, v ssa.Value, u *ssa.BasicBlock) []*prover {
+	if ph, ok := v.(*ssa.Phi); ok && ph.Block() == u && !dependsOnSelf(ph) {
+		var out []*prover
+		for i, e := range ph.Edges {
+			pred := u.Preds[i]
+			pr := newProver(c, loads, fn, pred)
+			pr.subst = map[ssa.Value]ssa.Value{ph: e}
+			if iff, isIf := pred.Instrs[len(pred.Instrs)-1].(*ssa.If); isIf && pred.Succs[0] != pred.Succs[1] {
+				for pass := 0; pass < 2; pass++ {
+					pr.assume(iff.Cond, pred.Succs[0] == u)
+				}
+			}
+			out = append(out, pr)
+		}
+		return out
+	}
+	top, paths, ok := cellPathsTo(v, u)
+	if !ok {
+		return nil
+	}
+	var out []*prover
+	for _, cp := range paths {
+		out = append(out, proverOnPath(c, loads, fn, top, cp))
+	}
+	return out
+}
+
+// splitOnCell proves an obligation on a local variable that lives in memory (its address is taken somewhere, so it
+// is not an SSA register): the loads of the cell at the top of the instruction's block are treated as a join of what
+// each backward path last stored into, or loaded from, the cell — the idiom `if len(x) == 0 { x = append(x, e) }; x[0]`.
+func splitOnCell(c *Ctx, loads []heapLoad, fn *ssa.Function, in ssa.Instruction) bool {
+	var cv ssa.Value
+	switch x := in.(type) {
+	case *ssa.Slice:
+		cv = x.X
+	case *ssa.IndexAddr:
+		cv = x.X
+	case *ssa.Index:
+		cv = x.X
+	}
+	if cv == nil {
+		return false
+	}
+	top, paths, ok := cellPathsTo(cv, in.Block())
+	if !ok {
+		return false
+	}
+	for _, cp := range paths {
+		pr := proverOnPath(c, loads, fn, top, cp)
+		ok := false
+		switch x := in.(type) {
+		case *ssa.Slice:
+			ok = pr.proveSlice(x)
+		case *ssa.IndexAddr:
+			ok = pr.proveIndex(x.X, x.Index)
+		case *ssa.Index:
+			ok = pr.proveIndex(x.X, x.Index)
+		}
+		if !ok {
+			return false
+		}
+	}
+	return true
 }
 
 func dependsOnSelf(ph *ssa.Phi) bool {
@@ -1194,22 +1439,26 @@ func proveAtCallers(c *Ctx, fn *ssa.Function, in ssa.Instruction) bool {
 	type pterm struct {
 		param int // -1: constant
 		off   int64
+		isLen bool // len(param) + off
 	}
 	cp := newProver(c, nil, fn, in.Block())
 	toP := func(v ssa.Value) (pterm, bool) {
 		if v == nil {
-			return pterm{-1, 0}, true
+			return pterm{-1, 0, false}, true
 		}
 		t := cp.norm(v)
 		if !t.ok {
 			return pterm{}, false
 		}
 		if t.sym == "0" {
-			return pterm{-1, t.off}, true
+			return pterm{-1, t.off, false}, true
 		}
 		for i, q := range fn.Params {
 			if valKey(q) == t.sym {
-				return pterm{i, t.off}, true
+				return pterm{i, t.off, false}, true
+			}
+			if lenKey(q) == t.sym {
+				return pterm{i, t.off, true}, true
 			}
 		}
 		return pterm{}, false
@@ -1241,59 +1490,82 @@ func proveAtCallers(c *Ctx, fn *ssa.Function, in ssa.Instruction) bool {
 		}
 		caller := e.Site.Parent()
 		loads := heapLoadsOf(caller)
-		pr := newProver(c, loads, caller, site.Block())
-		var L string
-		if xParam >= 0 {
-			arg := cc.Args[xParam]
-			pr.lenFacts(arg)
-			L = lenKey(pr.canon(arg))
-		} else {
-			L = fmt.Sprintf("site:%p", site)
-			pr.g.le("0", L, 0)
-			path := baseKey(cc.Args[xRecv]) + "." + xFieldName
-			for i := range loads {
-				o := &loads[i]
-				if o.path != path || o.field != xField || !c.stableBetween(o.in, site, xField) {
-					continue
+		proveWith := func(pr *prover) bool {
+			var L string
+			if xParam >= 0 {
+				arg := cc.Args[xParam]
+				pr.lenFacts(arg)
+				L = lenKey(pr.canon(arg))
+			} else {
+				L = fmt.Sprintf("site:%p", site)
+				pr.g.le("0", L, 0)
+				path := baseKey(cc.Args[xRecv]) + "." + xFieldName
+				for i := range loads {
+					o := &loads[i]
+					if o.path != path || o.field != xField || !c.stableBetween(o.in, site, xField) {
+						continue
+					}
+					var ok string
+					if o.val != nil {
+						pr.lenFacts(o.val)
+						ok = lenKey(pr.canon(o.val))
+					} else {
+						pr.valFacts(o.lenOf)
+						ok = valKey(o.lenOf)
+					}
+					pr.g.le(L, ok, 0)
+					pr.g.le(ok, L, 0)
 				}
-				var ok string
-				if o.val != nil {
-					pr.lenFacts(o.val)
-					ok = lenKey(pr.canon(o.val))
-				} else {
-					pr.valFacts(o.lenOf)
-					ok = valKey(o.lenOf)
+			}
+			at := func(t pterm) term {
+				if t.param < 0 {
+					return term{"0", t.off, true}
 				}
-				pr.g.le(L, ok, 0)
-				pr.g.le(ok, L, 0)
+				if t.isLen {
+					pr.lenFacts(cc.Args[t.param])
+					return term{lenKey(pr.canon(cc.Args[t.param])), t.off, true}
+				}
+				a := pr.norm(cc.Args[t.param])
+				if !a.ok {
+					return term{}
+				}
+				return term{a.sym, a.off + t.off, true}
 			}
-		}
-		at := func(t pterm) term {
-			if t.param < 0 {
-				return term{"0", t.off, true}
-			}
-			a := pr.norm(cc.Args[t.param])
-			if !a.ok {
-				return term{}
-			}
-			return term{a.sym, a.off + t.off, true}
-		}
-		l, h := at(lt), at(ht)
-		if !l.ok || !h.ok {
-			return false
-		}
-		if os.Getenv("HV_DEBUG") != "" {
-			fmt.Fprintf(os.Stderr, "proveAtCallers %s at %s: lo>=0 %v lo<=hi %v hi<=L %v\n", fn.Name(), caller.Name(), pr.g.prove("0", l.sym, l.off), pr.g.prove(l.sym, h.sym, h.off-l.off), pr.g.prove(h.sym, L, -h.off))
-		}
-		if !pr.g.prove("0", l.sym, l.off) {
-			return false
-		}
-		if hi != nil {
-			if !pr.g.prove(l.sym, h.sym, h.off-l.off) || !pr.g.prove(h.sym, L, -h.off) {
+			l, h := at(lt), at(ht)
+			if !l.ok || !h.ok {
 				return false
 			}
-		} else if !pr.g.prove(l.sym, L, -l.off) {
+			if !pr.g.prove("0", l.sym, l.off) {
+				return false
+			}
+			if hi != nil {
+				if !pr.g.prove(l.sym, h.sym, h.off-l.off) || !pr.g.prove(h.sym, L, -h.off) {
+					return false
+				}
+			} else if !pr.g.prove(l.sym, L, -l.off) {
+				return false
+			}
+			return true
+		}
+		if proveWith(newProver(c, loads, caller, site.Block())) {
+			continue
+		}
+		if os.Getenv("HV_DEBUG") != "" {
+			top, paths, ok := cellPathsTo(cc.Args[0], site.Block())
+			fmt.Fprintf(os.Stderr, "proveAtCallers %s at %s: direct proof failed; xParam=%d cell paths ok=%v n=%d top=%d arg=%v\n", fn.Name(), caller.Name(), xParam, ok, len(paths), len(top), cc.Args[0])
+		}
+		// the argument is a join, or a local variable kept in memory: one proof per incoming edge / per path to its last assignment
+		if xParam < 0 {
 			return false
+		}
+		cases := caseProvers(c, loads, caller, cc.Args[xParam], site.Block())
+		if len(cases) == 0 {
+			return false
+		}
+		for _, pr := range cases {
+			if !proveWith(pr) {
+				return false
+			}
 		}
 	}
 	return true
